@@ -2072,7 +2072,9 @@ def run_suite(cases, do_model=True, stats=None, model_every=1):
     findings = {}
     reqs = []
     distinct = set()
-    wanted = {ci for ci, c in enumerate(cases) if do_model and (ci % model_every == 0 or c.get('model'))}
+    # (a rejection-streak case goes through the model only when it is marked for it: see streak_to_model)
+    wanted = {ci for ci, c in enumerate(cases)
+              if do_model and (c.get('model') or (ci % model_every == 0 and not is_streak(c)))}
     workers = StreakWorkers(cases, wanted)
     try:
         elsewhere = workers.taken()
